@@ -108,6 +108,24 @@ def run(prop, tier, replay=None):
                                            what="race detector report on the concurrent mix (seed %d): %s" % (sd, p.stdout[p.stdout.index("WARNING: DATA RACE"):][:500].replace("\n", " | ")), replay_driver="conc")
             elif p.returncode != 0:
                 raise C.Infra("conc driver failed:\n" + p.stdout[-3000:])
+            if k == 0 and not replay:
+                # the proxy's stream pumps: the scripts of Proxy.tla (backends that fail first, clients that wait with the send
+                # side open) through a race-built front, eight worlds at once; only race reports are judged here
+                from . import proxy as PX
+                pcases = [c for c in PX.build_cases(scratch, random.Random(sd), "quick") if not c["wait"]]
+                pc, ptr = scratch.path("pcases.jsonl"), scratch.path("ptrace.ndjson")
+                with open(pc, "w") as f:
+                    for c in pcases:
+                        f.write(json.dumps(c) + "\n")
+                pp, _ = C.run([race, "proxy", "-cases", pc, "-out", ptr, "-seed", str(sd)], timeout=3000, env=dict(os.environ, GORACE="halt_on_error=0"))
+                stat["proxied_calls_race_build"] += len(pcases)
+                if "WARNING: DATA RACE" in pp.stdout:
+                    C.write_replay(prop, "DataRaceProxy-seed%d" % sd, dict(property=prop, formula="DataRace", seed=sd, report=pp.stdout[-12000:]))
+                    viol[("DataRace", "proxy")] = dict(property=prop, formula="DataRace", seed=sd, cases=[], more=0, signature=dict(module="Proxy", formula="DataRace"),
+                                                      what="race detector report on proxied calls (seed %d): %s" % (sd, pp.stdout[pp.stdout.index("WARNING: DATA RACE"):][:500].replace("\n", " | ")),
+                                                      replay_driver="proxy")
+                elif pp.returncode != 0:
+                    raise C.Infra("proxy driver (race build) failed:\n" + pp.stdout[-3000:])
             # split: Rpc events to RpcTrace, Retain events to PoolTrace
             rt, pt = scratch.path("rpc%d.ndjson" % k), scratch.path("pool%d.ndjson" % k)
             with open(rt, "w") as fr, open(pt, "w") as fp:
